@@ -205,6 +205,17 @@ PROPS = {
                        "panic after k capture steps, after resume, completion) every surviving attached thread is detached exactly once, the trace ends with SIGCONT, "
                        "every signal seen while attaching is re-injected unchanged, no capture follows the first detach.",
     },
+    "C18": {
+        "rule": "live dumps (same generated targets and option combinations as C01): raw streams vs. the harness's own reads of /proc/<tid>/{cmdline,environ,auxv,limits,maps,status} "
+                "and /proc/cpuinfo taken while the target is blocked; memory-info list vs. the memory map through the model; handle descriptors vs. readlink/stat of "
+                "/proc/<pid>/fd; system info vs. the cpuinfo scan model; linker debug stream vs. the synthetic PHDR → PT_DYNAMIC → DT_DEBUG → r_debug → link_map chain the "
+                "target built (reached through caller-supplied auxv values). Distinct = (#map lines, #descriptors, #checks, #threads).",
+        "expected_tags": ["raw.cmdline", "raw.environ", "raw.auxv", "raw.limits", "raw.maps", "meminfo.checked", "handles.checked", "sysinfo.checked", "dso.checked"],
+        "trusted_base": ["the contents of /proc are what the kernel reports (external input)", "procfs-core's maps parser"],
+        "assumptions": ["partial: 'as the kernel reports them' is an external input; volatile lines of /proc/<tid>/status (State, TracerPid, context-switch counters, pending signals) are masked"],
+        "explanation": "C18 theorems: memory-info entry per map line (range, 8-row protection table, private/shared type); direct auxv values are never overridden and unset ones "
+                       "are filled by the named /proc pair; the link_map walk returns exactly an acyclic chain in order (and provably never terminates on a cyclic one).",
+    },
 }
 
 NOT_APPLICABLE = {}
